@@ -898,7 +898,7 @@ impl<'a> LabelValue<'a> {
             self.target.buf.push_str(", ");
         }
         write!(
-            &mut self.target.buf, "{name}=\"{value}\""
+            &mut self.target.buf, "{name}=\"{}\"", label_str(value)
         ).expect("writing to string");
         self
     }
@@ -908,6 +908,39 @@ impl<'a> LabelValue<'a> {
             &mut self.target.buf, "}} {value}"
         ).expect("writing to string");
     }
+}
+
+
+/// Returns a value displaying `val` as the content of a label value.
+///
+/// Backslash, double quote and line feed are escaped as `\\`, `\"`, and
+/// `\n`, as required by the text exposition format.
+fn label_str(val: impl fmt::Display) -> impl fmt::Display {
+    struct WriteLabelStr<'a, 'f>(&'a mut fmt::Formatter<'f>);
+
+    impl fmt::Write for WriteLabelStr<'_, '_> {
+        fn write_str(&mut self, s: &str) -> fmt::Result {
+            for ch in s.chars() {
+                match ch {
+                    '\\' => self.0.write_str("\\\\")?,
+                    '"' => self.0.write_str("\\\"")?,
+                    '\n' => self.0.write_str("\\n")?,
+                    _ => self.0.write_char(ch)?,
+                }
+            }
+            Ok(())
+        }
+    }
+
+    struct LabelStr<T>(T);
+
+    impl<T: fmt::Display> fmt::Display for LabelStr<T> {
+        fn fmt(&self, f: &mut fmt::Formatter) -> fmt::Result {
+            write!(&mut WriteLabelStr(f), "{}", self.0)
+        }
+    }
+
+    LabelStr(val)
 }
 
 
